@@ -64,6 +64,7 @@ type Sim struct {
 	script         func(s *Sim, h int64) []*TxSpec
 	contracts      [][]byte // deployed contract addresses (top-level deployments)
 	scriptEvidence [][]byte // evidence a script wants in the current block
+	ties           bool     // tie-prone flavour: stake amounts from a small set
 	scriptMiss     [][]byte // validators a script reports as not having signed the previous block
 }
 
@@ -111,7 +112,12 @@ func newSimWith(seed int64, scratch string, profile string, nvals, nusers int, t
 		k := NewKey(fmt.Sprintf("s%d-val%d", seed, i))
 		s.vals = append(s.vals, k)
 		keys[k.Name] = k
-		g.Vals = append(g.Vals, GenVal{Key: k, Power: int64(10 + rng.Intn(90))})
+		pw := int64(10 + rng.Intn(90))
+		if seed%4 == 1 && nvals == 0 { // tie-prone flavour: equal powers, so the ranking's tie-breakers decide
+			pw = 15
+			s.ties = true
+		}
+		g.Vals = append(g.Vals, GenVal{Key: k, Power: pw})
 		if rng.Intn(4) > 0 {
 			g.Holders = append(g.Holders, Holder{Addr: k.Addr, Balance: rigo(int64(100 + rng.Intn(900)))})
 		}
@@ -279,6 +285,9 @@ func (s *Sim) genTx0() *TxSpec {
 		from := s.pick(s.all)
 		t := s.baseTx(2, from, from.Addr)
 		t.Amount = rigo(int64(1 + r.Intn(20)))
+		if s.ties {
+			t.Amount = rigo([]int64{5, 10, 15}[r.Intn(3)])
+		}
 		t.Note = "stake-self"
 		return t
 	case k < 40: // delegating
@@ -289,6 +298,9 @@ func (s *Sim) genTx0() *TxSpec {
 		}
 		t := s.baseTx(2, from, to.Addr)
 		t.Amount = rigo(int64(1 + r.Intn(10)))
+		if s.ties {
+			t.Amount = rigo(5)
+		}
 		t.Note = "delegate"
 		return t
 	case k < 52: // unstaking
